@@ -10,6 +10,7 @@ import Driver.Ops.Out
 import Driver.Ops.Scale
 import Driver.Ops.Strict
 import Driver.Ops.Ts
+import Driver.Ops.Fdef
 /-! Line-protocol driver of the model: one JSON case per input line, one JSON answer per line.
     To add an op: write `Driver/Ops/<Name>.lean`, import it here, add one line to `opTable`
     (or to `outputTable` for a new output kind of op `run`). -/
@@ -42,7 +43,9 @@ def opTable : List (String × (Json → R Json)) := [
   ("fmt", Ops.opFmt),
   ("strict", Ops.opStrict outputTable),
   ("ts", Ops.opTs),
-  ("tsfmt", Ops.opTsfmt)
+  ("tsfmt", Ops.opTsfmt),
+  ("fdef", Ops.opFdef),
+  ("b64", Ops.opB64)
 ]
 
 def dispatch (j : Json) : R Json := do
